@@ -152,6 +152,15 @@ theorem starTail_step {F : Nat} {atom : Atom} {a : PExpr R} {st st1 st2 st3 : St
   have : (st2.pos == st.pos) = false := by simpa using hp
   simp [eval, h1.1, h2.1, h3.1, this]
 
+/-- implicit whitespace: one WHITESPACE match, then the rest of the run -/
+theorem skip_step {F : Nat} {w : R} {st st1 st2 : St} {t1 : List (Tok R)}
+    (h1 : Ev G (some w) F .atomic (G w).body st (.ok st1 t1)) (hp : st1.pos ≠ st.pos)
+    (h2 : Ev G (some w) F .nonAtomic .skip st1 (.ok st2 [])) :
+    Ev G (some w) (F + 1) .nonAtomic .skip st (.ok st2 []) := by
+  refine ⟨?_, by simp⟩
+  have : (st1.pos == st.pos) = false := by simpa using hp
+  simp [eval, h1.1, this, h2.1]
+
 /-- where implicit whitespace is off, `e+` is `(e)*` that made progress -/
 theorem repOnce_of_starTail {F : Nat} {atom : Atom} {a : PExpr R} {st st' : St} {toks : List (Tok R)}
     (hat : atom ≠ .nonAtomic) (h : Ev G ws (F + 1) atom (.starTail a) st (.ok st' toks)) (hp : st'.pos ≠ st.pos) :
